@@ -298,6 +298,32 @@ def find_closures(text, body_a):
     return res
 
 
+def _fn_end_pos(text, body_a):
+    """where a trailing proof block goes: before the tail expression if the body has one,
+    else before the closing brace."""
+    toks = rsx.tokenize(text)
+    bi = next(i for i, t in enumerate(toks) if t.a == body_a)
+    ce = rsx.match_close(toks, bi)
+    inner = [i for i in rsx.sig(toks) if bi < i < ce]
+    last_end = None   # index in `inner` after the last statement end
+    k = 0
+    while k < len(inner):
+        t = toks[inner[k]]
+        if t.k == rsx.P and t.s in rsx.OPEN:
+            e = rsx.match_close(toks, inner[k])
+            k = inner.index(e)
+            if t.s == '{':
+                last_end = k + 1
+            k += 1
+            continue
+        if t.k == rsx.P and t.s == ';':
+            last_end = k + 1
+        k += 1
+    if last_end is None or last_end >= len(inner):
+        return toks[ce].a
+    return toks[inner[last_end]].a
+
+
 def rule_R13_index_loop(text, lp, idx, what):
     """for PAT in EXPR.iter_mut() { BODY }  ->
        let mut IDX: usize = 0; while IDX < EXPR.len() { let PAT = &mut EXPR[IDX]; BODY; IDX += 1; }"""
@@ -384,23 +410,23 @@ def inject(text, fs, oblig_lines=None, what=''):
             inserts.append(((ba, bb), hdr + ('\n' + spec_txt + '\n            ' if spec_txt else ' ') + '{ ' + text[ba:bb] + ' }'))
         if cinfo['params'] is not None:
             inserts.append(((pa, pb), cinfo['params']))
-    for (where, lp, blk) in fs.blocks:
-        if where == 'loop_begin':
+    for (bwhere, lp, blk) in fs.blocks:
+        if bwhere == 'loop_begin':
             if lp > len(loops) or lp < 1:
                 raise LostAnchor('%s: loop %d not found' % (fs.path, lp))
             pos = loops[lp - 1][1] + 1
             inserts.append(((pos, pos), '\n' + blk + '\n'))
-        elif where == 'loop_end':
+        elif bwhere == 'loop_end':
             if lp > len(loops) or lp < 1:
                 raise LostAnchor('%s: loop %d not found' % (fs.path, lp))
             ltoks = rsx.tokenize(text)
             bi = next(i for i, t in enumerate(ltoks) if t.a == loops[lp - 1][1])
             pos = ltoks[rsx.match_close(ltoks, bi)].a
             inserts.append(((pos, pos), '\n' + blk + '\n'))
-        elif where == 'fn_begin':
+        elif bwhere == 'fn_begin':
             inserts.append(((body_a + 1, body_a + 1), '\n' + blk + '\n'))
         else:
-            endpos = text.rindex('}')
+            endpos = _fn_end_pos(text, body_a)
             inserts.append(((endpos, endpos), '\n' + blk + '\n'))
     for lp, nm in fs.iters.items():
         if lp > len(loops):
